@@ -19,18 +19,63 @@ import (
 	wb "verif/harness/wbridge"
 )
 
+// bodyReader reads a struct body generically. Fields whose id is selected by
+// skipMask are passed over with Skip, the way generated code treats unknown
+// fields; kept() gives the body the reader is then expected to report.
 type bodyReader struct {
-	w      rc.W
-	budget int
-	called int
+	w        rc.W
+	budget   int
+	called   int
+	skipMask uint16
+}
+
+func (b *bodyReader) skips(id int16) bool {
+	return b.skipMask != 0 && (uint16(id)*40503>>13)&b.skipMask != 0
+}
+
+func (b *bodyReader) kept(body rc.W) rc.W {
+	out := rc.W{T: rc.TStruct}
+	for _, f := range body.Fields {
+		if !b.skips(f.ID) {
+			out.Fields = append(out.Fields, f)
+		}
+	}
+	return out
 }
 
 func (b *bodyReader) Decode(sr stream.Reader) error {
 	b.called++
 	b.budget = 1 << 21
-	w, err := wb.StreamRead(sr, rc.TStruct, &b.budget)
+	w := rc.W{T: rc.TStruct}
 	b.w = w
-	return err
+	if err := sr.ReadStructBegin(); err != nil {
+		return err
+	}
+	for {
+		fh, ok, err := sr.ReadFieldBegin()
+		if err != nil {
+			return err
+		}
+		if !ok {
+			break
+		}
+		if b.skips(fh.ID) {
+			if err := sr.Skip(fh.Type); err != nil {
+				return err
+			}
+		} else {
+			v, err := wb.StreamRead(sr, byte(fh.Type), &b.budget)
+			if err != nil {
+				return err
+			}
+			w.Fields = append(w.Fields, rc.Field{ID: fh.ID, V: v})
+		}
+		if err := sr.ReadFieldEnd(); err != nil {
+			return err
+		}
+	}
+	b.w = w
+	return sr.ReadStructEnd()
 }
 
 type enveloper struct {
@@ -288,13 +333,13 @@ func c12RoundTrip(c *core.Child, i uint64, r *core.Rand, e rc.Envelope) {
 				return cr, cr
 			}
 			rd, _ := mk()
-			br := &bodyReader{}
+			br := &bodyReader{skipMask: uint16(r.Intn(4))}
 			rw, err := binary.Default.ReadRequest(context.Background(), et, rd, br)
 			if err != nil {
 				bad(fmt.Sprintf("ReadRequest rejects a spec %s request under chunking %s (seekable=%v): %v", f, wb.ChunkNames[class], seekable, err), map[string]any{"request_hex": hx(b), "chunking": wb.ChunkNames[class]})
 			} else {
 				kind, name, seq := responderKind(rw)
-				if !rc.Equal(br.w, e.Body) {
+				if !rc.Equal(br.w, br.kept(e.Body)) {
 					bad(fmt.Sprintf("ReadRequest(%s, %s) body differs", f, wb.ChunkNames[class]), map[string]any{"got_body": br.w.String()})
 				}
 				if kind != f || (f != rc.FrameBare && (name != string(e.Name) || seq != e.SeqID)) {
@@ -334,7 +379,7 @@ func c12Classify(c *core.Child, i uint64, r *core.Rand, b []byte, et wire.Envelo
 		if r.Chance(1, 3) {
 			rd = &wb.SeekChunkReader{ChunkReader: *wb.NewChunkReader(b, class, r.Uint64())}
 		}
-		br := &bodyReader{}
+		br := &bodyReader{skipMask: uint16(r.Intn(4))}
 		rw, serr := binary.Default.ReadRequest(context.Background(), et, rd, br)
 		if br.budget < 0 {
 			c.Count("harness_budget", 1)
@@ -356,7 +401,7 @@ func c12Classify(c *core.Child, i uint64, r *core.Rand, b []byte, et wire.Envelo
 				d["read_request"] = fmt.Sprint(k2, " ", hx([]byte(n2)), " ", s2)
 				c.Violation(i, "DecodeRequest and ReadRequest disagree on framing / name / seqid", "", d)
 			}
-			if !rc.Equal(body, br.w) {
+			if !rc.Equal(br.kept(body), br.w) {
 				d := det()
 				d["decode_request_body"] = body.String()
 				d["read_request_body"] = br.w.String()
